@@ -33,4 +33,27 @@ def run(rep, tier, seed, replay=None):
             out.append(("decode-mismatch:mcauto", f"want {v.want[:300]} got {vlib.result_of(impl)[:300]}"))
         return out
 
-    vlib.correspond(rep, [v.line for v in valids], oracle=oracle, trivial=lambda c, i: False, tag="c03o")
+    # the variant the server speaks loses a write of its first request to a local send failure while retries are allowed:
+    # the attempt is repeated on that variant — same response, same label, same sockets — it is not skipped
+    lines = [v.line for v in valids]
+    for v in valids:
+        sent = v.tags.get("SENT", "").split(",") if v.tags.get("SENT") else []
+        label = v.want.rsplit(";", 1)[-1].rstrip("}") if v.want.startswith("OK") else ""
+        if not sent or not label:
+            continue
+        first = len(sent) - (3 if label == "J" else 1)
+        if first < 0:
+            continue
+        for r, nf in ((1, 1), (2, 2), (3, 1)):
+            c = v.case()
+            c.args[3] = str(r)
+            # (a retry count the base did not have changes what the variants before the answering one send: only the
+            # bases whose earlier variants are refused outright keep their traffic)
+            if any(x != "X" for x in c.script[:-1]) and c.args[3] != v.case().args[3]:
+                continue
+            c.opts = [o for o in c.opts if not o.startswith("f=")] + ["f=" + "0" * first + "1" * nf]
+            cid = f"{v.id}sf{r}"
+            lines.append(c.line(cid))
+            by_id[cid] = v
+            rep.count("send-fault-on-answering-variant:" + label)
+    vlib.correspond(rep, lines, oracle=oracle, trivial=lambda c, i: False, tag="c03o")
